@@ -137,7 +137,7 @@ func (m Mode) leafSort(t types.Type) string {
 		case u.Info()&types.IsFloat != 0:
 			return "Real"
 		case u.Info()&types.IsString != 0:
-			return "Str"
+			return strSort()
 		case u.Kind() == types.UnsafePointer:
 			return RefSort
 		case u.Kind() == types.UntypedNil:
@@ -368,3 +368,35 @@ func shortName(s string) string {
 }
 
 func isDeferStack(t types.Type) bool { return strings.Contains(t.String(), "deferStack") }
+
+// nativeStrings: verify the current function in the SMT theory of strings (cvc5): the Go string
+// type becomes String, the few string library functions used by the validators become theory
+// operators. Elsewhere strings are an uninterpreted sort with length and byte content.
+var nativeStrings bool
+
+func strSort() string {
+	if nativeStrings {
+		return "String"
+	}
+	return "Str"
+}
+
+func isStrSort(s string) bool { return s == "Str" || s == "String" }
+
+func smtStringLit(x string) *Node {
+	var sb strings.Builder
+	sb.WriteByte('"')
+	for i := 0; i < len(x); i++ {
+		c := x[i]
+		switch {
+		case c == '"':
+			sb.WriteString(`""`)
+		case c >= 0x20 && c < 0x7f && c != '\\':
+			sb.WriteByte(c)
+		default:
+			fmt.Fprintf(&sb, "\\u{%x}", c)
+		}
+	}
+	sb.WriteByte('"')
+	return TS.mk(sb.String(), "String")
+}
